@@ -125,9 +125,15 @@ func (p *{{$ProcessName}}) Process(ctx context.Context, seqId int32, iprot, opro
 
 		{{- if .Throws}}
 		switch v := err2.(type) {
-		{{- range .Throws}}
+		{{- $Throws := .Throws}}
+		{{- range $i, $t := .Throws}}
+		{{- /* two throws may share an exception type; a type can only have one case, the first field gets the value */}}
+		{{- $dup := false}}
+		{{- range $j, $u := $Throws}}{{if and (lt $j $i) (eq $u.GoTypeName $t.GoTypeName)}}{{$dup = true}}{{end}}{{end}}
+		{{- if not $dup}}
 		case {{.GoTypeName}}:
 			result.{{($ResType.Field .Name).GoName}} = v
+		{{- end}}
 		{{- end}}
 		default:
 			x := thrift.NewTApplicationException(thrift.INTERNAL_ERROR, "Internal error processing {{.Name}}: "+err2.Error())
